@@ -45,6 +45,9 @@ class Pair:
     reports (` order=...`, ` pick=...`) to the model as extra arguments, and returns both replies."""
 
     CHOICE_KEYS = ("order=", "pick=", "sample=")
+    # white-box listings the model does not mirror (they feed the property oracle only)
+    IMPL_ONLY = ("wb.keys", "wb.frags", "c.scanall", "c.commands", "c.rawcmd", "c.sync", "c.add", "c.stop", "c.update",
+                 "c.balance", "bg.compact", "bg.janitor", "wb.stats")
 
     def __init__(self, drv, model, env=None):
         self.drv_path, self.model_path, self.env = drv, model, env
@@ -59,7 +62,10 @@ class Pair:
             for ck in self.CHOICE_KEYS:
                 if part.startswith(ck):
                     mop += " " + part[len(ck):]
-        rm = self.model.ask(mop) if self.model else ri
+        if op.split(" ", 1)[0] in self.IMPL_ONLY:
+            rm = ri
+        else:
+            rm = self.model.ask(mop) if self.model else ri
         self.log.append((op, ri, rm))
         return ri, rm
 
